@@ -1,10 +1,63 @@
 import Driver.Util
-open Lean Driver
+import GinjaxVerif.Model.C09
+open Lean Driver GinjaxVerif.C09
 
 namespace Driver.C09
 
-def handle (op : String) (_j : Json) : R Json := do
+/-- parameters are an opaque token for the driver (a list of rationals) -/
+abbrev Params := List Rat
+
+def asLeaf (j : Json) : R (Leaf Rat) := do
+  let l ← asList asRat j
+  pure ⟨l⟩
+
+def asUpdate (j : Json) : R (Update Params Rat) := do
+  let p ← listF asRat j "params"
+  let c ← field j "c" >>= asRat
+  -- the model's updates have a non-zero bank factor; c = 0 is outside its domain
+  if c = 0 then throw "bank factor c = 0" else pure ⟨p, c⟩
+
+def jLeaf (l : Leaf Rat) : Json := jList jRat l.data
+
+def jModel (m : Model String Params (Leaf Rat)) : Json :=
+  Json.mkObj [("plan", jStr m.plan), ("params", jList jRat m.params), ("bank", jList jLeaf m.bank)]
+
+def getModel (j : Json) : R (Model String Params (Leaf Rat)) := do
+  let plan ← strF j "plan"
+  let params ← listF asRat j "params"
+  let bank ← listF asLeaf j "bank"
+  pure { plan := plan, params := params, bank := bank }
+
+def handle (op : String) (j : Json) : R Json := do
   match op with
+  | "c09.train" =>
+    -- the model after the whole history, the common factor, and the model `train` returns when
+    -- the stopping condition keeps the model of index `choose` (0 = initial; absent = last)
+    let m ← getModel j
+    let us ← listF asUpdate j "updates"
+    let out := train m us
+    let choose := match optField j "choose" with
+      | some v => (asNat v).toOption
+      | none => none
+    let ret := match choose with
+      | some i => trainReturn (fun _ => i) m us
+      | none => out
+    pure (Json.mkObj [("final", jModel out), ("factor", jRat (totalFactor us)),
+                      ("returned", jModel ret), ("history_len", jNat (history m us).length)])
+  | "c09.bank" =>
+    -- only the bank: initial leaves and the per-step factors
+    let bank ← listF asLeaf j "bank"
+    let cs ← listF asRat j "factors"
+    if cs.any (fun c => c == 0) then throw "bank factor c = 0"
+    let m : Model Unit Unit (Leaf Rat) := { plan := (), params := (), bank := bank }
+    let us : List (Update Unit Rat) := cs.map (fun c => ⟨(), c⟩)
+    pure (Json.mkObj [("bank", jList jLeaf (train m us).bank), ("factor", jRat (totalFactor us))])
+  | "c09.common_factor" =>
+    let b0 ← listF asLeaf j "bank0"
+    let b1 ← listF asLeaf j "bank1"
+    match commonFactor b0 b1 with
+    | some c => pure (Json.mkObj [("common", jBool true), ("factor", jRat c)])
+    | none => pure (Json.mkObj [("common", jBool false), ("factor", Json.null)])
   | _ => throw s!"unknown op {op}"
 
 end Driver.C09
